@@ -19,7 +19,7 @@ RULE = ('bounded exhaustive enumeration of source texts, each parsed by the real
         '1..len+1 constructed directly; (nesting) parenthesis/unary/call nesting to the depth bound in every statement kind; '
         '(contin) backslash runs 1..8 with the fault in every piece; (bsonly) backslash-only physical lines before every piece of '
         'a continued statement and as the last lines of the input; (linechars) FF, VT, FS, GS, RS, NEL, U+2028, U+2029 and a lone CR '
-        'inside a comment, a string literal and as white space, before and on a faulty line; (includes) every sequence of <= 4 lines over three include lines, an assignment, a comment and a blank, at top level and in a function body; (openers) unclosed-block scenarios whose opening line is continued over 1..3 fragments; (overlap) faulty lines whose faulty expression text also occurs earlier in the line; (prefix) every prefix of 1..3 comment/blank/statement '
+        'inside a comment, a string literal and as white space, before and on a faulty line; (includes) every sequence of <= 4 lines over three include lines, an assignment, a comment and a blank, at top level and in a function body; (openers) unclosed-block scenarios whose opening line is continued over 1..3 fragments; (overlap) faulty lines whose faulty expression text also occurs earlier in the line; (crlines) fault lines given as an iterable of CR-terminated lines or as a str ending in a lone CR; (prefix) every prefix of 1..3 comment/blank/statement '
         'lines x start line {1,7} on base texts of the other families. A case is non-trivial when the text is rejected '
         '(keywords, soup, mutants, prefix), when the line is long enough to be elided (columns, caret), when the depth '
         'exceeds 1 or the text is faulty (nesting, contin, bsonly, linechars).')
@@ -1402,6 +1402,93 @@ def fam_overlap(tpls):
 
 
 # ---------------------------------------------------------------------------------------------------------------------
+# (l) lines that still carry a carriage return when the parser sees them
+
+# (expression text, 0-based index of the fault token in it, or None when the fault is the END of the expression)
+CR_FAULTS = (
+    ('@ + 1', 0),
+    ('1 @ 2', 2), ('ff(1 @, 2)', 5), ('ff(1, @)', 6), ('!1 @', 3), ('aa + bb @', 8),
+    ('1 +', None), ('ff(1,', None), ('ff(1', None), ('(1 +', None), ('1 + (', None), ('!', None), ('ff(', None),
+)
+CR_FORMS = ('iter', 'iter2', 'trail', 'trail-ws')     # iterable of lines ending in CR / in CR CR; str ending in a lone CR / in blank + CR
+CR_INDENTS = ('', '  ')
+
+
+def build_crlines(case):
+    """-> (script argument for parse_script, the faulty line exactly as the parser receives it, content length, fault index or None,
+    index of the statement's closing text or None)"""
+    kind = case['stmt']
+    expr, fidx = CR_FAULTS[case['fault']]
+    ind = CR_INDENTS[case['indent']]
+    content = ind + HEADS[kind] + expr + CLOSE[kind]
+    base = len(ind) + len(HEADS[kind])
+    close_at = base + len(expr) if CLOSE[kind] else None
+    first, _, after = wrap(kind, '')
+    form = case['form']
+    if form in ('iter', 'iter2'):
+        tail = '\r' if form == 'iter' else '\r\r'
+        return [first + tail, content + tail, after + tail], content + tail, len(content), None if fidx is None else base + fidx, close_at
+    tail = '\r' if form == 'trail' else ' \r'
+    return first + '\n' + content + tail, content + tail, len(content), None if fidx is None else base + fidx, close_at
+
+
+def check_crlines(case, acc):
+    script, raw, clen, fidx, close_at = build_crlines(case)
+    start = case['start']
+    res = run(script, start)
+    acc.evals += 1
+    detail = dict(case, script=script)
+    if res[0] != 'err':
+        acc.violation(detail, f'BareScriptParserError at line {start + 1}', obs(res),
+                      'another exception escapes parse_script' if res[0] == 'host' else 'a faulty line is accepted')
+        return ('bad', res[0])
+    exc = res[1]
+    if exc.line_number != start + 1 or isinstance(exc.line_number, bool):
+        acc.violation(detail, start + 1, exc.line_number, 'line_number is not the number of the faulty line (lines carrying a carriage return)')
+        return ('line',)
+    line = exc.line
+    # whether the carriage return itself is kept in .line is not prescribed - it only has to be consistent with the column
+    allowed = (raw, raw.rstrip('\r'), raw.rstrip())
+    if not isinstance(line, str) or line not in allowed:
+        acc.violation(detail, f'{raw!r} (with or without its trailing carriage return / blanks)', line, 'line is not the text of the faulty line')
+        return ('text',)
+    col = exc.column_number
+    if not isinstance(col, int) or isinstance(col, bool) or not 1 <= col <= len(line) + 1:
+        acc.violation(detail, f'1 <= column_number <= {len(line) + 1} for line {line!r}', col, 'column_number is outside the reported line')
+        return ('range',)
+    if fidx is not None:
+        lo, hi = fault_range(raw, fidx)
+    elif close_at is not None:
+        lo, hi = fault_range(raw, close_at)
+    else:
+        lo, hi = clen + 1, len(line) + 1       # end of the expression: anywhere in the trailing blanks / CR or just past the line
+    if not lo <= col <= hi:
+        acc.violation(detail, f'column in {lo}..{hi} of {line!r}', col, 'column_number does not point at the fault (line carrying a carriage return)')
+        return ('column',)
+    prob = caret_problem(str(exc), line, col)
+    if prob is not None:
+        acc.violation(detail, prob[0], prob[1], prob[2] + ' (line carrying a carriage return)')
+    return ('err', col - clen if fidx is None else col - fidx, line == raw)
+
+
+def fam_crlines(kinds):
+    acc = Acc('crlines')
+    seen = Seen(acc)
+    for kind in kinds:
+        for fault in range(len(CR_FAULTS)):
+            for form in CR_FORMS:
+                for indent in range(len(CR_INDENTS)):
+                    for start in STARTS:
+                        acc.cases += 1
+                        case = {'stmt': kind, 'fault': fault, 'form': form, 'indent': indent, 'start': start}
+                        seen.add(check_crlines(case, acc))
+                        if CR_FAULTS[fault][1] is None:
+                            acc.nontrivial += 1
+        acc.sample({'script': build_crlines({'stmt': kind, 'fault': 6, 'form': 'iter', 'indent': 1})[0], 'expected': 'error at line 2, column at the end of the expression, caret under it'})
+    return acc.result()
+
+
+# ---------------------------------------------------------------------------------------------------------------------
 # (f) prefix metamorphosis
 
 PREFIX_LINES = ('# c', '', 'zz = 1')
@@ -1563,6 +1650,10 @@ def families(tier):
                f'{len(OVERLAPS)} faulty lines over the 8 statement kinds whose faulty expression text also occurs earlier in the line '
                f'(x = = =, aa = aa aa, return return return, jumpif (() lbl, if if if:, for vx in in in: ...) x {len(OVL_INDENTS)} indents x start lines '
                f'{list(STARTS)}', expected=len(OVERLAPS) * len(OVL_INDENTS) * len(STARTS)),
+        Family('crlines', fam_crlines, [[k] for k in STMT_KINDS],
+               f'{len(STMT_KINDS)} statement kinds x {len(CR_FAULTS)} faults (start / middle / call argument / end of the expression) x input forms '
+               f'{list(CR_FORMS)} (iterable of lines ending in CR or CR CR; str ending in a lone CR or blank + CR) x {len(CR_INDENTS)} indents x '
+               f'start lines {list(STARTS)}', expected=len(STMT_KINDS) * len(CR_FAULTS) * len(CR_FORMS) * len(CR_INDENTS) * len(STARTS)),
         Family('prefix', fam_prefix, [(tier, cuts[i], cuts[i + 1]) for i in range(64) if cuts[i + 1] > cuts[i]],
                f'{nbases} base texts (keyword sequences <= {3 if quick else 4} lines, soup lines <= {2 if quick else 3} tokens, all mutants of '
                f'{4 if quick else 16} corpus programs, fault columns up to {140 if quick else 200}) x {len(PREFIXES)} prefixes of 1..3 lines '
@@ -1571,13 +1662,13 @@ def families(tier):
 
 
 _CHECKS = {'keywords': check_keywords, 'soup': check_soup, 'mutants': check_mutants, 'columns': check_columns, 'caret': check_caret,
-           'nesting': check_nesting, 'contin': check_contin, 'prefix': check_prefix, 'linechars': check_linechars, 'bsonly': check_bsonly, 'includes': check_includes, 'openers': check_openers, 'overlap': check_overlap}
+           'nesting': check_nesting, 'contin': check_contin, 'prefix': check_prefix, 'linechars': check_linechars, 'bsonly': check_bsonly, 'includes': check_includes, 'openers': check_openers, 'overlap': check_overlap, 'crlines': check_crlines}
 
 
 def replay(family, case):
     acc = Acc(family)
     case = {k: v for k, v in case.items() if k in ('idx', 'tok', 'src', 'depth', 'prog', 'mut', 'kind', 'fault', 'tail', 'f', 'len', 'col',
-                                                    'shape', 'stmt', 'variant', 'run', 'pos', 'ws', 'ind', 'cm', 'base', 'ch', 'cls', 'faulty', 'eol', 'part', 'at', 'n', 'bs', 'ctx', 'trail', 'opener', 'scen', 'layout', 'pre', 'tpl', 'indent', 'prefix', 'start')}
+                                                    'shape', 'stmt', 'variant', 'run', 'pos', 'ws', 'ind', 'cm', 'base', 'ch', 'cls', 'faulty', 'eol', 'part', 'at', 'n', 'bs', 'ctx', 'trail', 'opener', 'scen', 'layout', 'pre', 'tpl', 'indent', 'form', 'prefix', 'start')}
     if family == 'prefix':
         check_prefix(case, acc)
     else:
